@@ -549,7 +549,8 @@ PROPS = {
     },
     "C03": {
         "module": "DnsModel.Theorems.C03",
-        "theorems": [],
+        "theorems": ["Dns.C03.accepted_layout", "Dns.C03.walks_faithful", "Dns.C03.no_opt_outside_additional", "Dns.C03.question_walk",
+                     "Dns.C03.accessors", "Dns.C03.ip_accessor", "Dns.C03.data_accessor"],
         "families": [{"name": "iter-boundary", "quick": 0, "thorough": 0, "fixed": True}, {"name": "iter", "quick": 3000, "thorough": 150000}],
         "oracle": oracle_c03,
         "nontrivial": nontrivial_accepted,
@@ -712,7 +713,7 @@ MANIFEST_TEXT = {
             "technique": "Lean 4 proof (induction on fuel, cursor invariant) + model/implementation correspondence"},
     "C02": {"text": "Lean theorem for all byte strings: the model's parse succeeds if and only if the declarative policy WF holds (names by inductive relations with the strictly-backward / 16-pointer / no-root-target discipline, label and name limits, forbidden characters; pointer-free DNAME targets; per-type rdata shapes; root-named single OPT in the additional section with options tiling its data; QR gating; one IN question; nothing left over) - both directions, by induction on fuel / on derivations. Verdicts of the real parser are compared in both directions with the model and with an independent executable statement of the policy (Python recogniser) on structured, single-point-damaged, boundary (incl. re-entering names, pointer ladders) and arbitrary packets.",
             "note": NOTE, "technique": "Lean 4 proof of the name-walker iff + correspondence + independent recogniser"},
-    "C03": {"text": "Model of the four iterators and all accessors; on every generated accepted packet the real walks/accessors, the model's and the reference decoder's RFC 1035 reading agree (OPT absent/first/middle/last, chained pointers, pointers into rdata)." + PENDING,
+    "C03": {"text": "Proved for every accepted packet (via the C02 equivalence and the decoding lemmas copyUncompressedName_valid / rawNameToStr_valid / skipName_valid): the question walk yields exactly the question; the answer, authority and additional walks yield exactly the records of the policy relation in wire order, with OPT included and with OPT skipped wherever it sits; on each record the owner name (wire and lowercase dotted form), type, class, TTL, data length, raw data and address accessors return the values at the record's positions and never panic. Not proved: the EDNS option walk and the section-of-record accessor (correspondence only), hence 'other'. Model of the four iterators and all accessors; on every generated accepted packet the real walks/accessors, the model's and the reference decoder's RFC 1035 reading agree (OPT absent/first/middle/last, chained pointers, pointers into rdata)." + PENDING,
             "note": NOTE, "technique": "model/implementation correspondence + reference decoder oracle"},
     "C04": {"text": "Model of every header/question/EDNS getter (with the question cache); real getters compared with the model and with values decoded independently from the bytes by div/mod." + PENDING,
             "note": NOTE, "technique": "model/implementation correspondence + reference decoder oracle"},
